@@ -319,36 +319,65 @@ def _compile(ctx, model):
     if not sorts:
         why = "the remaining free variables are not sorted"
     ctx.ob("P/compile/sorted-by-name", ok, loc, why)
-    # listed first
-    ok = "all_variables = self._Variables + used_variables" in src
-    ctx.ob("P/compile/listed-variables-first", ok, loc,
-           "listed variables, then the remaining free variables" if ok else
-           "the argument list is not <listed variables> + <remaining free "
+    # data flow of the evaluated text (semantic, not textual)
+    evals = []
+    for ps in summarize(fn, node_param=False):
+        for e in ps.events:
+            if e.kind == "call" and e.name == "eval" and e.args:
+                evals.append(e.args)
+    if not evals:
+        raise AnalysisError("_compile: eval(...) of the generated text not found")
+    listed_first = excl_listed = excl_ctx = lam = src_ok = True
+    for args in evals:
+        text = args[0]
+        if not (text[0] == "strformat" and text[1].replace(" ", "") ==
+                "lambda{}:{}" and len(text[2]) == 2):
+            lam = False
+            continue
+        params, body = text[2]
+        # parameters: ",".join(str(v) for v in ALL)
+        allv = None
+        if params[0] == "strjoin" and params[1].strip() == "," and params[2] and \
+                params[2][0][0] == "seq" and not params[2][0][4]:
+            allv = params[2][0][3]
+            el = params[2][0][2]
+            if not (el[0] == "call" and el[1] == "str" and el[2] == (
+                    ("elem", allv),)):
+                lam = False
+        else:
+            lam = False
+        if allv is not None:
+            listed = ("self", "_Variables")
+            if not (allv[0] == "binop" and allv[1] == "Add" and allv[2] == listed):
+                listed_first = False
+            rest = allv[3] if allv[0] == "binop" else allv
+            if not contains(rest, lambda t: t[0] == "binop" and t[1] == "Sub"
+                            and t[3] in (("call", "set", (listed,), ()), listed)):
+                excl_listed = False
+            if not contains(rest, lambda t: t[0] == "binop" and t[1] == "Sub"
+                            and t[3][0] == "seq" and t[3][2][0] == "call"
+                            and t[3][2][1].endswith("var")
+                            and t[3][3][0] == "keys"):
+                excl_ctx = False
+        if not (body[0] == "call" and len(body) >= 5 and body[4] == (
+                "call", "CompileMapper", (), ()) and body[2] == (
+                ("self", "_Expression"), ("global", "PREC_NONE"))):
+            src_ok = False
+    ctx.ob("P/compile/listed-variables-first", listed_first, loc,
+           "listed variables, then the remaining free variables" if listed_first
+           else "the argument list is not <listed variables> + <remaining free "
            "variables>")
-    # listed and context names removed
-    ok = "used_variables -= set(self._Variables)" in src and \
-        "used_variables -= {pymbolic.var(key) for key in list(ctx.keys())}" in src
-    ctx.ob("P/compile/excludes-listed-and-context", ok, loc,
-           "listed variables and context names are not parameters twice" if ok
-           else "listed variables / context names are not removed from the free "
+    ctx.ob("P/compile/excludes-listed-and-context", excl_listed and excl_ctx, loc,
+           "listed variables and context names are not parameters twice"
+           if excl_listed and excl_ctx else
+           "listed variables / context names are not removed from the free "
            "variables")
-    # lambda text
-    ok = False
-    for c in ast.walk(fn):
-        if isinstance(c, ast.Call) and isinstance(c.func, ast.Attribute) \
-                and c.func.attr == "format" and isinstance(c.func.value,
-                                                           ast.Constant):
-            if c.func.value.value == "lambda {}: {}" and len(c.args) == 2 and \
-                    ast.unparse(c.args[0]).replace(" ", "") == \
-                    "','.join((str(v)forvinall_variables))" and \
-                    ast.unparse(c.args[1]) == "expr_s":
-                ok = True
-    ctx.ob("P/compile/lambda-text", ok, loc,
-           "lambda <all variables>: <expression text>" if ok else
-           "the compiled text is not 'lambda <all variables in order>: <source>'")
-    ok = "expr_s = CompileMapper()(self._Expression, PREC_NONE)" in src
-    ctx.ob("P/compile/source-from-compile-mapper", ok, loc,
-           "source text comes from CompileMapper at PREC_NONE" if ok else
+    ctx.ob("P/compile/lambda-text", lam, loc,
+           "lambda <all variables>: <expression text>" if lam else
+           "the compiled text is not 'lambda <str of all variables, comma "
+           "separated>: <source>'")
+    ctx.ob("P/compile/source-from-compile-mapper", src_ok, loc,
+           "source text comes from CompileMapper at PREC_NONE" if src_ok else
            "expression text is not CompileMapper()(expression, PREC_NONE)")
     # constants by repr
     cmap = model.cls(f"{COMP}:CompileMapper")
